@@ -330,7 +330,7 @@ func (s *session) SetID(newID string) {
 	s.socket.SetID(newID)
 	hub := s.peer.sessHub
 	hub.set(s)
-	hub.delete(oldID)
+	hub.delete(oldID, s)
 	Tracef("session changes id: %s -> %s", oldID, newID)
 }
 
@@ -784,7 +784,7 @@ func (s *session) closeLocked() error {
 		return nil
 	} // readDisconnected is being called
 	verifGate("close.cas", s)
-	s.peer.sessHub.delete(s.ID())
+	s.peer.sessHub.delete(s.ID(), s)
 	verifGate("close.hubdel", s)
 	s.notifyClosed()
 	s.graceCtxWait()
@@ -820,7 +820,7 @@ func (s *session) readDisconnected(oldConn net.Conn, err error) {
 		break
 	}
 
-	s.peer.sessHub.delete(s.ID())
+	s.peer.sessHub.delete(s.ID(), s)
 
 	var reason string
 	if err != nil && err != socket.ErrProactivelyCloseSocket {
@@ -975,6 +975,9 @@ type SessionHub struct {
 	// key: session id (ip, name and so on)
 	// value: *session
 	sessions goutil.Map
+	// mu serializes set and delete, so that an id is only
+	// removed by the session that it maps to.
+	mu sync.Mutex
 }
 
 // newSessionHub creates a new sessions hub.
@@ -988,11 +991,15 @@ func newSessionHub() *SessionHub {
 // set sets a *session.
 func (sh *SessionHub) set(sess *session) {
 	verifEvent("hubset", sess, 0, 0)
+	sh.mu.Lock()
 	_sess, loaded := sh.sessions.LoadOrStore(sess.ID(), sess)
+	if loaded {
+		sh.sessions.Store(sess.ID(), sess)
+	}
+	sh.mu.Unlock()
 	if !loaded {
 		return
 	}
-	sh.sessions.Store(sess.ID(), sess)
 	if oldSess := _sess.(*session); sess != oldSess {
 		oldSess.Close()
 	}
@@ -1032,9 +1039,14 @@ func (sh *SessionHub) len() int {
 	return sh.sessions.Len()
 }
 
-// delete deletes the *session for a id.
-func (sh *SessionHub) delete(id string) {
-	sh.sessions.Delete(id)
+// delete deletes the id if it maps to sess.
+// NOTE: the id may have been taken over by a newer session in the meantime.
+func (sh *SessionHub) delete(id string, sess *session) {
+	sh.mu.Lock()
+	if _sess, ok := sh.sessions.Load(id); ok && _sess.(*session) == sess {
+		sh.sessions.Delete(id)
+	}
+	sh.mu.Unlock()
 }
 
 const (
